@@ -153,7 +153,12 @@ func genGCoreJournal(c *Ctx, r *rand.Rand) []any {
 			words = append(words, gcWord(r, 'a', 'z', 1, 9))
 		}
 		ps := []any{}
-		for k, np := 0, 1+r.IntN(6); k < np; k++ {
+		np := 1 + r.IntN(6)
+		if r.IntN(16) == 0 {
+			np = 0 // a header alone: well-formed too (GCore.WF does not ask for a posting)
+			c.Count("gcore.noPostings")
+		}
+		for k := 0; k < np; k++ {
 			segs := []string{}
 			for s, ns := 0, 2+r.IntN(3); s < ns; s++ {
 				segs = append(segs, gcWord(r, 'a', 'z', 1, 8))
